@@ -1270,6 +1270,120 @@ def check_C12(tier):
     return ck.finish()
 
 
+MALFORMED = [
+    "position", "position fen", "position startpos moves e2e5", "position startpos moves e2e4 e7e5 e2e4",
+    "position fen 8/8/8 w - -", "position fen rnbqkbnr/pppppppp/9/8/8/8/PPPPPPPP/RNBQKBNR w KQkq - 0 1",
+    "position fen rnbqkbnr/pppppppp/8/8/8/8/PPPPPPPP/RNBQKBNR x KQkq - 0 1", "position xyz", "position startpos move e2e4",
+    "position fen 8/8/8/8/8/8/8/8 w - - 0 1", "position fen rnbqkbnr/pppppppp/8/8/8/8/PPPPPPPP/RNBQKBNR w KQkq e9 0 1",
+    "position fen rnbqkbnr/pppppppp/44/8/8/8/PPPPPPPP/RNBQKBN w KQkq - 0 1", "position fen k7/8/8/8/8/8/8/K7 w - - x 1",
+    "position fen  moves e2e4",
+    "go depth", "go depth x", "go nodes", "go nodes -", "go movetime", "go movetime abc", "go wtime", "go movestogo", "go mate",
+    "go foo", "go depth 2 foo", "go\tdepth", "go winc", "go binc x", "go btime",
+    "setoption", "setoption name", "setoption name Foo value 1", "setoption value 3",
+    "xyz", "   ", "\t", "quit2", "u c i", "\u2654\u2655 e2e4", "go" + " x" * 2000, "position " + "9" * 3000, "=" * 20000,
+]
+
+
+def check_C16(tier):
+    ck = Check("C16", tier)
+    quick = tier == "quick"
+    rng = random.Random(SEED)
+    import shutil
+    cnt = {}
+    # ---- FEN totality: FenInput.tla generates the structured family, the driver adds byte-level mutants
+    cfg = "INIT Init\nNEXT Next\nCONSTANTS\n  MaxTok = %d\nINVARIANT Out\nCHECK_DEADLOCK FALSE\n" % (4 if quick else 6)
+    fa = vlib.tlc("FenInput", cfg, workers=8, tag="fen-gen", timeout=3600)
+    ck.add_tlc(fa)
+    run = vlib.scratch("fen")
+    try:
+        res = vlib.run_driver(["fen-fuzz", "-gen", vlib.art_out(fa), "-corpus", os.path.join(VERIF, "corpus", "roots.fen"),
+                               "-mut", 5000 if quick else 500000, "-seed", SEED, "-out", os.path.join(run, "res.json")], cwd=run, timeout=3600)
+    finally:
+        shutil.rmtree(run, ignore_errors=True)
+    ck.add_result(res)
+    cnt.update(res["counters"])
+    # legal positions round-trip exactly: every node of the TLC trees
+    tree = shared(tier)["tree"]
+    ck.add_tlc(tree)
+    res2 = chess_replay([tree], ["C16"])
+    ck.add_result(res2)
+    cnt["C16.legal_fens"] = res2["counters"].get("C16.legal_fens", 0)
+    # ---- UCI totality: malformed lines inside otherwise valid sessions
+    art, normal, drawn, roots = search_positions(tier, rng)
+    nodes = [n for n in normal if len(n["legal"]) >= 2][:40]
+    S = ul.send
+    scripts, meta = [], {}
+    mal = MALFORMED if quick else MALFORMED + [m.upper() for m in MALFORMED[:30]] + [" " + m for m in MALFORMED[:30]]
+    for mi, m in enumerate(mal):
+        for ctx in ("idle", "searching"):
+            n = nodes[(mi * 3 + (ctx == "idle")) % len(nodes)]
+            cmd, fen = uci_position_cmd(n)
+            steps = [S("uci"), ul.wait("uciok", 3000), S(cmd), ul.sync()]
+            if ctx == "idle":
+                steps += [S(m), ul.sync(), S("go depth 2"), ul.wait("bestmove", 8000), ul.sync()]
+            else:
+                steps += [S("go infinite"), ul.sleep(15), S(m), ul.sync(), S("stop"), ul.wait("bestmove", 3000), ul.sync(),
+                          S(cmd), S("go depth 1"), ul.wait("bestmove", 8000)]
+            sid = len(scripts) + 1
+            scripts.append({"id": sid, "name": "malformed/" + ctx, "steps": steps})
+            meta[sid] = {"mal": m, "ctx": ctx, "fen": fen}
+    res3 = ul.run_sessions(scripts)
+
+    def disc(kind, sig, sid, detail):
+        ck.discs.append({"prop": "C16", "kind": kind, "sig": sig, "fen": "", "detail": detail,
+                         "replay": {"script": scripts[sid - 1], "events": res3[sid]["events"][-40:]}})
+        key = "C16|%s|%s" % (kind, sig)
+        ck.disc_count[key] = ck.disc_count.get(key, 0) + 1
+    traces = {}
+    for sc in scripts:
+        sid, r, m = sc["id"], res3[sc["id"]], meta[sc["id"]]
+        ev = r["events"]
+        word = (m["mal"].split() or ["<blank>"])[0][:12] + ("/" + m["mal"].split()[1][:10] if len(m["mal"].split()) > 1 else "")
+        if r["rc"] != 0 or not ev or ev[-1]["ev"] != "end":
+            disc("engine-dies", "uci/crash/" + word, sid, {"line": m["mal"][:200], "context": m["ctx"], "rc": r["rc"], "stderr": r["stderr"][-600:]})
+            continue
+        if ev[-1].get("line") != "loop-exited":
+            disc("engine-unresponsive", "uci/quit-ignored/" + word, sid, {"line": m["mal"][:200]})
+            continue
+        for e in ev:
+            if e["ev"] == "timeout":
+                disc("engine-unresponsive", "uci/no-" + e.get("line", "") + "/" + word, sid, {"line": m["mal"][:200], "context": m["ctx"]})
+        fens = [e.get("line", "") for e in ev if e["ev"] == "fen"]
+        if len(fens) >= 2 and fens[1] != fens[0]:
+            disc("position-lost", "uci/position-changed/" + word, sid, {"line": m["mal"][:200], "before": fens[0], "after": fens[1]})
+        if fens and fens[0] != m["fen"]:
+            disc("position-command", "position/fen-differs", sid, {"engine": fens[0], "specification": m["fen"]})
+        traces[sid] = ul.trace_of(ev, malformed_lines=(m["mal"],))
+    verdicts, st = ul.validate(traces, tag="uci16-trace")
+    ck.cov["states"] += st[0]
+    ck.cov["transitions"] += st[1]
+    nacc = 0
+    for sid, (ok, dia) in verdicts.items():
+        if ok:
+            nacc += 1
+        else:
+            tr = traces[sid]
+            bad = tr[dia - 1] if dia - 1 < len(tr) else {"ev": "end"}
+            m = meta[sid]
+            word = (m["mal"].split() or ["<blank>"])[0][:12]
+            disc("malformed-line-had-an-effect", "uci/effect/" + word + "/" + bad["ev"] + "-" + bad.get("cmd", ""), sid,
+                 {"line": m["mal"][:200], "context": m["ctx"], "rejected_wire_line": bad})
+    cnt["uci_sessions"] = len(scripts)
+    cnt["uci_sessions_accepted_by_spec"] = nacc
+    ck.cov["evaluations"] = cnt.get("C16.fen_strings", 0) + cnt["C16.legal_fens"] + len(scripts)
+    ck.cov["distinct_nontrivial"] = cnt.get("C16.nontrivial", 0) + len(scripts)
+    ck.cov["traces_validated_against_impl"] = nacc + cnt["C16.legal_fens"]
+    ck.cov["counters"] = cnt
+    ck.cov["rule"] = ("FEN: every string of the structured family generated by FenInput.tla (token sequences for the first ranks, every field "
+                      "replaced by bad values, truncations) and seeded byte-level mutants of corpus FENs - error, or a position that round-trips "
+                      "and answers queries, never a panic or hang; every node FEN of the TLC trees round-trips exactly. UCI: each line of a "
+                      "malformed-command catalogue inserted into valid sessions while idle and while searching, in a child process: the engine "
+                      "must survive, answer isready, keep its position, and the session must stay a behaviour of UciSession.tla with the "
+                      "malformed line as a no-op; non-trivial = generated/mutated strings and malformed sessions")
+    ck.cov["samples"] = (ck.cov["samples"] or []) + [{"malformed_line": m[:80]} for m in MALFORMED[:3]]
+    return ck.finish()
+
+
 def getattr_default(name):
     """Default value of a boolean search switch (mirrors internal/config/searchconfig.go; only used to
     flip single switches - a wrong entry merely changes which configuration is explored)."""
